@@ -109,7 +109,7 @@ impl W {
 pub fn run(seed: u64, ntraces: usize) {
     let mut r = Rng::new(seed ^ 0x175);
     for t in 0..ntraces {
-        let d = t % 16;      // which directed schedule opens the trace
+        let d = t % 17;      // which directed schedule opens the trace
         let mut w = World::new();
         let owner = user_addr(1); let operator = user_addr(2); let relayer = user_addr(3);
         let users = vec![user_addr(4), user_addr(5), user_addr(6)]; let dest = user_addr(7);
@@ -129,7 +129,9 @@ pub fn run(seed: u64, ntraces: usize) {
         let mut chains: Vec<(Vec<u8>, Vec<u8>)> = vec![(b"ethereum".to_vec(), b"0xITSeth".to_vec()), (b"avalanche".to_vec(), b"hub".to_vec()), (b"polygon".to_vec(), b"0xITSpoly".to_vec())];
         if hub_set { chains.push((b"axelar".to_vec(), b"axelar1hub".to_vec())); }
         chains.push((b"axelarnet".to_vec(), b"0xITSnet".to_vec()));       // a directly trusted chain whose name has the hub's name as a prefix
-        let mut args = vec![gw.to_vec(), gas.to_vec(), tmt.to_vec(), operator.to_vec(), b"multiversx".to_vec(), big(chains.len() as u64)];
+        // the service's own chain name: mixed case in every fourth trace (it is hashed into every token id exactly as given)
+        let own_chain: Vec<u8> = if t % 4 == 3 { b"MultiversX-D1".to_vec() } else { b"multiversx".to_vec() };
+        let mut args = vec![gw.to_vec(), gas.to_vec(), tmt.to_vec(), operator.to_vec(), own_chain.clone(), big(chains.len() as u64)];
         for (c, _) in &chains { args.push(c.clone()); }
         args.push(big(chains.len() as u64)); for (_, a) in &chains { args.push(a.clone()); }
         let st = w.deploy(&owner, &its, b"its", args);
@@ -137,7 +139,7 @@ pub fn run(seed: u64, ntraces: usize) {
         tracked.extend([hx(its.as_bytes()), hx(gw.as_bytes()), hx(gas.as_bytes())]);
         for k in 0..12u8 { tracked.push(hx(sc_addr(0x40 + k).as_bytes())); }
         let init = json!({"its": hx(its.as_bytes()), "gw": hx(gw.as_bytes()), "gas": hx(gas.as_bytes()), "tm_impl": hx(tmt.as_bytes()), "owner": hx(owner.as_bytes()),
-            "operator": hx(operator.as_bytes()), "chain": hx(b"multiversx"), "trusted": chains.iter().map(|(c, a)| json!([hx(c), hx(a)])).collect::<Vec<_>>(),
+            "operator": hx(operator.as_bytes()), "chain": hx(&own_chain), "trusted": chains.iter().map(|(c, a)| json!([hx(c), hx(a)])).collect::<Vec<_>>(),
             "gwnow": now, "retention": 2, "domain": hx(&domain), "gwdelay": 0, "gwop": hx(owner.as_bytes()), "signers": [hx(&set.encode(0))],
             "tracked": tracked, "funds": all.iter().map(|u| json!([hx(u.as_bytes()), "2000000000000000000", [[hx(&tok), "1000000"], [hx(&tok2), "1000000"]]])).collect::<Vec<_>>(),
             "res": st.json});
@@ -231,7 +233,7 @@ pub fn run(seed: u64, ntraces: usize) {
                     script.push(22);
                     let ow = g.owner.clone();
                     let (okp, _, _) = g.its_tx("pause", &ow, "pause", vec![], 0, &[], json!({"paused": true})); if okp { g.paused = true; }
-                    script.extend([1602u64, 1702, 1802, 1600, 3090, 3290, 3590, 3291, 10, 1602]);
+                    script.extend([1602u64, 1702, 1802, 1600, 3090, 3290, 3590, 3291, 3490, 3990, 10, 1602]);
                 }
                 else if d == 10 {   // inbound battery: every routing variant for a transfer without data, the main ones for transfers with data and deployments
                     for v in 0..18u64 { script.push(1600 + v); }
@@ -243,11 +245,15 @@ pub fn run(seed: u64, ntraces: usize) {
                 else if d == 12 {   // outbound battery: payment shapes x destination routing, with gas
                     for sh in [9u64, 8, 0, 1, 2] { for ch in 0..5u64 { script.push(3000 + sh * 10 + ch); } }
                     for sh in [9u64, 8, 1] { for ch in 0..2u64 { script.push(3500 + sh * 10 + ch); } }
-                    script.extend([3095u64, 3595, 3085, 3585, 3596, 3290, 3291]);   // empty destination address (transfer / call), call data in the metadata
+                    script.extend([3095u64, 3595, 3085, 3585, 3596, 3290, 3291]);
+                    script.extend([58u64, 59, 60, 61]);      // a custom token linked to: the hub chain itself (refused), a hub-routed chain, a direct chain   // empty destination address (transfer / call), call data in the metadata
                     script.extend([51u64, 3080, 3580, 52, 3081, 3581]);      // ethereum removed -> no transfer to it; then the hub removed -> none to a hub-routed chain
                 }
                 else if d == 14 {   // inbound deployment in two steps with the nominated minter calling the new manager directly in between
                     script.extend([193u64, 45, 194, 23, 194, 45, 196]);
+                }
+                else if d == 16 {   // the nominated minter already holds minter and operator roles when the hand-over of the third step runs
+                    script.extend([62u64, 63, 20, 64, 23, 65, 65, 45]);
                 }
                 else if d == 15 {
                     // (a) remote canonical deployment with an EMPTY destination chain for tokens that were never registered (EGLD: same call; ESDT: in the
@@ -275,7 +281,7 @@ pub fn run(seed: u64, ntraces: usize) {
             let has_pending = !g.pend.is_empty();
             let scripted = !script.is_empty();
             let a = if !script.is_empty() { script.remove(0) } else if has_pending && r.chance(1, 2) { 20 } else { *r.pick(&[0u64, 1, 2, 3, 3, 3, 4, 4, 4, 5, 5, 5, 6, 6, 6, 7, 7, 7, 7, 8, 9, 10, 11, 12, 12, 13, 14, 14, 15, 16, 17, 18, 19, 19]) };
-            let a_raw = a; let a = if a == 56 || a == 57 { 0 } else { a };
+            let a_raw = a; let a = if a == 56 || a == 57 { 0 } else if a == 58 { 1 } else if (59..=61).contains(&a) { 17 } else { a };
             let force_fail = a == 21; let force_props_ok = a == 22; let force_issue_ok = a == 23; let force_cb = a == 24; let force_ok = a == 25;
             let a = if a == 21 || a == 22 || a == 23 || a == 24 || a == 25 { 20 } else { a };
             // 1<a><vv>: inbound message kind a (6, 7, 8) in routing variant vv; 20<i> / 21<i>: message-type word i (direct / hub-wrapped); 3<shape><chain> / 35..: outbound transfer / call; 190..192: inbound link / deploy for an already bound token id (direct, hub-wrapped, deploy)
@@ -328,6 +334,7 @@ pub fn run(seed: u64, ntraces: usize) {
                 }
                 1 => { // registerCustomToken
                     let salt = r.bytes(32); let ty = *r.pick(&[0u8, 1, 2, 3, 4, 4, 7]); let token = if r.chance(1, 6) { b"bad-token".to_vec() } else { tok2.clone() };
+                    let (ty, token) = if a_raw == 58 { (2u8, tok2.clone()) } else { (ty, token) };
                     let op = match r.below(3) { 0 => VMAddress::zero(), _ => g.operator.clone() };
                     let (ok, rets, dep) = g.its_tx("registerCustom", &anyone, "registerCustomToken", vec![salt.clone(), token.clone(), if ty == 0 { vec![] } else { vec![ty] }, op.to_vec()], 0, &[],
                         json!({"salt": hx(&salt), "token": hx(&token), "ty": ty, "operator": hx(op.as_bytes())}));
@@ -358,8 +365,9 @@ pub fn run(seed: u64, ntraces: usize) {
                 4 | 5 => { // outbound interchainTransfer / callContractWithInterchainToken
                     if g.toks.is_empty() { continue; }
                     // forced shapes: chain index 5..9 = chain (index - 5) with an EMPTY destination address; shape 20.. = shape - 20 with call data in the metadata
-                    let (f_empty_dest, f_md_data) = if let Some((sh, ch)) = fshape { (ch >= 5, sh >= 20) } else { (false, false) };
+                    let (f_empty_dest, f_md_data, f_owner) = if let Some((sh, ch)) = fshape { (ch >= 5, sh % 40 >= 20, sh >= 40) } else { (false, false, false) };
                     let fshape = fshape.map(|(sh, ch)| (sh % 20, ch % 5));
+                    let anyone = if f_owner { g.owner.clone() } else { anyone.clone() };      // shape 40..: the contract owner is the caller
                     let ti = if fshape.is_some() { 0 } else { r.below(g.toks.len() as u64) as usize };
                     let (tid, ttok) = (g.toks[ti].id.clone(), g.toks[ti].token.clone().unwrap_or(tok.clone()));
                     let gasv = if fshape.is_some() { 3 + r.below(9) } else { match r.below(4) { 0 => 0, _ => 1 + r.below(20) } };
@@ -488,7 +496,7 @@ pub fn run(seed: u64, ntraces: usize) {
                     if natives.is_empty() || r.chance(1, 6) { natives = g.toks.iter().filter(|t| t.kind == "native").collect(); }
                     let (deployer, salt, tminter) = if !natives.is_empty() { let t = r.pick(&natives); (t.deployer.clone(), t.salt.clone(), t.minter.clone()) } else { (anyone.clone(), r.bytes(32), vec![0u8; 32]) };
                     let minter = match r.below(8) { 0 => vec![0u8; 32], 1 => g.its.to_vec(), _ => if tminter.len() == 32 { tminter } else { vec![0u8; 32] } };
-                    let dchain = r.pick(&[&b"ethereum"[..], b"ethereum", b"avalanche", b"avalanche", b"unknown", b"multiversx", b""]).to_vec();
+                    let dchain = r.pick(&[&b"ethereum"[..], b"ethereum", b"avalanche", b"avalanche", b"unknown", &own_chain[..], b"", b"axelar"]).to_vec();
                     let dm: Option<Vec<u8>> = match r.below(3) { 0 => None, 1 => Some(b"0xremoteminter".to_vec()), _ => Some(b"0xother".to_vec()) };
                     let mut args = vec![salt.clone(), minter.clone(), dchain.clone()]; if let Some(d) = &dm { args.push(d.clone()); }
                     let gasv = r.below(3) * 1000;
@@ -496,7 +504,7 @@ pub fn run(seed: u64, ntraces: usize) {
                         json!({"salt": hx(&salt), "minter": hx(&minter), "dchain": hx(&dchain), "dminter": dm.as_ref().map(|d| hx(d))}));
                 }
                 15 => { let token = match r.below(4) { 0 => b"EGLD".to_vec(), 1 => tok2.clone(), _ => tok.clone() };
-                    let dchain = r.pick(&[&b"ethereum"[..], b"avalanche", b"unknown", b"multiversx", b""]).to_vec(); let gasv = r.below(3) * 777;
+                    let dchain = r.pick(&[&b"ethereum"[..], b"avalanche", b"unknown", &own_chain[..], b"", b"axelar"]).to_vec(); let gasv = r.below(3) * 777;
                     g.its_tx("deployRemoteCanonical", &anyone, "deployRemoteCanonicalInterchainToken", vec![token.clone(), dchain.clone()], gasv, &[], json!({"token": hx(&token), "dchain": hx(&dchain)})); }
                 16 => { let token = match r.below(4) { 0 => b"bad".to_vec(), _ => tok.clone() }; let gasv = r.below(3) * 555;
                     // the gas of this endpoint is EGLD only: an ESDT payment (1 in 4) must be refused
@@ -505,8 +513,9 @@ pub fn run(seed: u64, ntraces: usize) {
                 17 => { // linkToken
                     let customs: Vec<&Tok> = g.toks.iter().filter(|t| !t.salt.is_empty() && t.kind != "native").collect();
                     let (deployer, salt) = if !customs.is_empty() { let t = r.pick(&customs); (t.deployer.clone(), t.salt.clone()) } else { (anyone.clone(), r.bytes(32)) };
-                    let dchain = r.pick(&[&b"ethereum"[..], b"avalanche", b"unknown", b"multiversx", b""]).to_vec(); let ty = *r.pick(&[0u8, 2, 4]);
+                    let dchain = r.pick(&[&b"ethereum"[..], b"avalanche", b"unknown", &own_chain[..], b"", b"axelar", b"axelar"]).to_vec(); let ty = *r.pick(&[0u8, 2, 4]);
                     let dtok = if r.chance(1, 8) { vec![] } else { b"0xremote-token".to_vec() }; let gasv = r.below(3) * 333;
+                    let (dchain, ty, dtok, gasv) = if a_raw >= 59 && a_raw <= 61 { ([&b"axelar"[..], b"avalanche", b"ethereum"][(a_raw - 59) as usize].to_vec(), 2u8, b"0xremote-token".to_vec(), 333u64) } else { (dchain, ty, dtok, gasv) };
                     g.its_tx("linkToken", &deployer, "linkToken", vec![salt.clone(), dchain.clone(), dtok.clone(), if ty == 0 { vec![] } else { vec![ty] }, b"params".to_vec()], gasv, &[],
                         json!({"salt": hx(&salt), "dchain": hx(&dchain), "dtoken": hx(&dtok), "ty": ty, "params": hx(b"params")})); }
                 18 => { let caller = match r.below(6) { 0 => g.owner.clone(), 1 | 2 => anyone.clone(), _ => g.operator.clone() }; let na = r.pick(&g.users).clone();
@@ -533,13 +542,18 @@ pub fn run(seed: u64, ntraces: usize) {
                     g.its_tx("revokeRemote", &caller, "revokeDeployRemoteInterchainToken", vec![deployer.to_vec(), salt.clone(), dchain.clone()], 0, &[],
                         json!({"deployer": hx(deployer.as_bytes()), "salt": hx(&salt), "dchain": hx(&dchain)}));
                 }
-                46 | 47 => { // directed: 47 starts a local deployment (supply 1000, minter users[0]); 46 continues the newest one with DIFFERENT arguments (no supply, no minter)
+                46 | 47 | 62 | 63 | 64 | 65 => { // 62..65: a deployment whose steps are called with a minter from the start, an issuance without the cost (fails), then with supply and cost, then the mint step twice
+                    // directed: 47 starts a local deployment (supply 1000, minter users[0]); 46 continues the newest one with DIFFERENT arguments (no supply, no minter)
                     let u = g.users[2].clone();
-                    let (salt, supply, minter, egld) = if a == 47 { (r.bytes(32), 1000u64, g.users[0].to_vec(), 0u64) } else {
+                    let (salt, supply, minter, egld) = if a == 47 { (r.bytes(32), 1000u64, g.users[0].to_vec(), 0u64) }
+                      else if a == 62 { (r.bytes(32), 0u64, g.users[0].to_vec(), 0u64) }
+                      else if a >= 63 { let Some(tk) = g.toks.iter().rev().find(|t| t.kind == "native") else { continue; };
+                                        (tk.salt.clone(), if a == 63 { 0u64 } else { 1000 }, g.users[0].to_vec(), if a == 64 { ISSUE_COST } else { 0 }) }
+                      else {
                         let Some(tk) = g.toks.iter().rev().find(|t| t.kind == "native") else { continue; }; (tk.salt.clone(), 0u64, vec![0u8; 32], if tk.token.is_none() { ISSUE_COST } else { 0 }) };
                     let (ok, rets, dep) = g.its_tx("deployToken", &u, "deployInterchainToken", vec![salt.clone(), b"MyToken".to_vec(), b"MTK".to_vec(), vec![18], big(supply), minter.clone()], egld, &[],
                         json!({"salt": hx(&salt), "name": hx(b"MyToken"), "symbol": hx(b"MTK"), "decimals": 18, "supply": supply.to_string(), "minter": hx(&minter)}));
-                    if ok && a == 47 { if let Some(tm) = dep { g.toks.push(Tok { id: rets.last().unwrap().clone(), kind: "native", tm, token: None, salt, deployer: u.clone(), supply, minter, custody: 0 }); } }
+                    if ok && (a == 47 || a == 62) { if let Some(tm) = dep { g.toks.push(Tok { id: rets.last().unwrap().clone(), kind: "native", tm, token: None, salt, deployer: u.clone(), supply, minter, custody: 0 }); } }
                 }
                 48 | 49 => { // directed: the service's operator proposes the role to users[1] (48) / transfers it to users[2] (49)
                     let caller = g.operator.clone(); let na = if a == 48 { g.users[1].clone() } else { g.users[2].clone() };
